@@ -426,9 +426,11 @@ func runAddress(rng *Rng, n int, st *Stats, param string) ([]string, []any) {
 					foreign = src.PubKeyHashAddrID != net.PubKeyHashAddrID
 				case kname == "p2sh":
 					foreign = src.ScriptHashAddrID != net.ScriptHashAddrID
-				default:
+				case kname == "p2wpkh" || kname == "p2wsh" || kname == "p2tr":
 					foreign = src.Bech32HRPSegwit != net.Bech32HRPSegwit
 				}
+				// for the other kinds (random version bytes, malformed strings, ...) "the source network" says
+				// nothing about the string: a random version byte may well be the configured network's
 			}
 			script, err := bitcointypes.DecodeBtcAddress(s, net)
 			rp := map[string]any{"kind": "decode", "net": names[ni], "source_net": src.Name, "address": s, "address_hex": hex.EncodeToString([]byte(s)), "address_kind": kname, "mutation": mut}
